@@ -3,6 +3,8 @@ use serde_json::Value;
 use crate::common::{machinery_error, Tier};
 
 pub mod c06;
+pub mod c07;
+pub mod c11;
 pub mod grammar;
 pub mod loopprops;
 pub mod proto;
@@ -17,6 +19,8 @@ pub fn run(id: &str, tier: Tier) -> i32 {
         "C04" => loopprops::run_c04(tier),
         "C05" => loopprops::run_c05(tier),
         "C06" => c06::run(tier),
+        "C07" => c07::run(tier),
+        "C11" => c11::run(tier),
         "C08" => loopprops::run_c08(tier),
         _ => machinery_error(&format!("unknown property id {id}")),
     }
@@ -26,6 +30,8 @@ pub fn replay(id: &str, case: &Value) -> i32 {
     match id {
         "C01" | "C04" | "C05" | "C08" => loopprops::replay(id, case),
         "C06" => c06::replay(case),
+        "C07" => c07::replay(case),
+        "C11" => c11::replay(case),
         "C02" | "C03" | "C09" | "C10" => proto::replay(id, case),
         _ => machinery_error(&format!("unknown property id {id}")),
     }
